@@ -115,8 +115,8 @@ def c03(tier, seed):
                 only=["debug_node_ran_with_flag_off(call)", "debug_node_ran_with_flag_off(executor)", "debug_node_ran_with_flag_off(setup)"],
                 **_seeds(seed + 82, k)) for k in range(1 if tier == "quick" else 4)]
         # ... nor is an already-set-up or already-cached node entered again by an execution restarted from a cache file
-        + [dict(kind="cache18", pid="C03", n_cases=(100 if tier == "quick" else 1000), only=["restart_executed_set_wrong", "restart_recomputed_cached_nodes"],
-                **_seeds(seed + 80, k)) for k in range(1 if tier == "quick" else 4)]
+        + [dict(kind="cache18", pid="C03", n_cases=(250 if tier == "quick" else 1500), only=["restart_executed_set_wrong", "restart_recomputed_cached_nodes"],
+                **_seeds(seed + 80, k)) for k in range(2 if tier == "quick" else 4)]
         # "the function of every other node (unselected ...) is not entered at all", however the selection is spelled: ids of
         # reused functions, tags (shared, substrings of each other, equal to another node's id), references, lists and tuples
         + [dict(kind="sel", pid="C03", exhaustive_n=[], random_shapes=(40 if tier == "quick" else 300), nmin=4, nmax=8, triples_per_shape=30,
@@ -189,7 +189,7 @@ def c09(tier, seed):
                       dfs_faults=False)
     jobs += sched_jobs(tier, seed + 11, gen=dict(nmax=5, mc_max=2, seq_rate=0.4), stress=False, dfs=True, dfs_faults=True, scale=0.2)
     # executions started from inside node functions (also setup() inside a setup node): must terminate
-    jobs += [dict(kind="imbricated", n_cases=(60 if tier == "quick" else 600), op_watchdog_s=20, **_seeds(seed + 80, k)) for k in range(1 if tier == "quick" else 4)]
+    jobs += [dict(kind="imbricated", n_cases=(60 if tier == "quick" else 600), op_watchdog_s=20, **_seeds(seed + 80, k)) for k in range(2 if tier == "quick" else 4)]
     # large DAGs (hundreds of nodes: chains, fans, grids, trees) terminate within the same step bound
     jobs += [dict(kind="scale", n_cases=(2 if tier == "quick" else 8), nmin=150, nmax=(400 if tier == "quick" else 900), **_seeds(seed + 85, k))
              for k in range(2 if tier == "quick" else 8)]
